@@ -74,6 +74,7 @@ def _make_body(i, awaits, oc):
         if k == 'kill':
             return ps.Kill(plumpy.process_comms.MessageBuilder.kill(KILL_CMD_MSG))
         if k == 'raise':
+            self._raised.append((oc[1], self.has_terminated()))
             raise UserExc(oc[1])
         raise ValueError(oc)
 
@@ -122,6 +123,7 @@ def build_class(prog):
                         return None
                     return plumpy.ToContext(**{f'k{k}': self._futs[f] for f, k in oc[2]})
                 if oc[0] == 'raise':
+                    self._raised.append((oc[1], self.has_terminated()))
                     raise UserExc(oc[1])
                 return None
             step.__name__ = f's{i}'
@@ -263,6 +265,7 @@ class Run:
         cls = build_class(prog)
         self.p = p = cls(loop=self.loop)
         p._trace = []
+        p._raised = []
         p._futs = [self.loop.create_future() for _ in range(prog.get('nfut', 0))]
         if status0 is not None:
             p.set_status(status0)
@@ -271,7 +274,17 @@ class Run:
         self.lis = Listener(self, plan)
         p.add_process_listener(self.lis)
         self.cleanups = []
+        self.cleanups_other = {'raising': 0, 'last': 0}
         p.add_cleanup(lambda: self.cleanups.append(1))
+
+        def raising_cleanup():
+            self.cleanups_other['raising'] += 1
+            raise UserExc(7)
+
+        def last_cleanup():
+            self.cleanups_other['last'] += 1
+        p.add_cleanup(raising_cleanup)      # a failing cleanup must not keep the others from running
+        p.add_cleanup(last_cleanup)
         self.task = self.loop.create_task(p.step_until_terminated())
         self.handed = []          # action futures handed out by pause()/kill()
         self.ops, self.obs = [], []
@@ -339,9 +352,10 @@ class Run:
         toks = op.split()
         ph, live = self.phase(), not p.has_terminated()
         raised, r = None, None
+        idx0 = len(self.calls)
         try:
             if toks[0] == 'pause':
-                r = p.pause('pm')
+                r = p.pause('pm') if idx0 % 2 == 0 else p.pause()      # with and without a status message
             elif toks[0] == 'play':
                 r = p.play()
             elif toks[0] == 'kill':
